@@ -339,10 +339,11 @@ open BstreamVerif BstreamVerif.ForkDB
 /-- what the step that may discover the LIB leaves behind -/
 def DiscoveryStep (U : Id → Option Blk) (b : Blk) (s' : FState) (evs : List Event) : Prop :=
   (PreInv U s' ∧ evs = []) ∨
-  (s'.db.libRef = b.ref ∧ evs.map sbOf = [(Step.new, b), (Step.irreversible, b)] ∧ Inv s' [] ∧ Inv2 U [b.id] s'.db) ∨
+  (s'.db.libRef = b.ref ∧ evs.map sbOf = [(Step.new, b), (Step.irreversible, b)] ∧ Inv s' [] ∧ Inv2 U [b.id] s'.db ∧
+    HeadU U s') ∨
   (∃ (L : Blk) (news : List Blk), L.id = s'.db.libRef.id ∧
     evs.map sbOf = news.map (fun x => (Step.new, x)) ++ (if news = [] then [] else [(Step.irreversible, L)]) ∧
-    linkedBlks L.id news ∧ Inv s' (news.map (·.id)) ∧ Inv2 U [L.id] s'.db)
+    linkedBlks L.id news ∧ Inv s' (news.map (·.id)) ∧ Inv2 U [L.id] s'.db ∧ HeadU U s')
 
 theorem isSent_false_of_unsent (db : DB) (h : ∀ e ∈ db.entries, e.sent = false) (x : Id) : isSent db x = false := by
   unfold isSent
@@ -501,7 +502,15 @@ theorem discovery_switch (cfg : Config) (hnew : cfg.matches .new = true) (hundo 
     obtain ⟨_, _, hadvevs, hadvdb, hadvI⟩ := hadv
     have herid : er.blk.id = R.id := find_id _ _ er hfer
     right; right
-    refine ⟨er.blk, (c0 :: cs0).map (·.blk), ?_, ?_, ?_, ?_, ?_⟩
+    refine ⟨er.blk, (c0 :: cs0).map (·.blk), ?_, ?_, ?_, ?_, ?_, ?_⟩
+    rotate_right
+    · -- the head block is the stored entry of the incoming block
+      show HeadU U (advanceAcc cfg a b (some er)).st
+      intro l hl
+      rw [advanceAcc_lastSent, hlastSent] at hl
+      have hl' : eb.blk = l := Option.some.inj hl
+      have hn : eb.blk.num = b.num := by have := congrArg Ref.num heblast; simpa [Blk.ref] using this
+      exact ⟨b, by rw [← hl', hebid]; exact hbU, by rw [← hl', hn]⟩
     · show er.blk.id = (advanceAcc cfg a b (some er)).st.db.libRef.id
       rw [hadvdb, herid]
       show R.id = a.st.db.libRef.id
@@ -576,7 +585,8 @@ theorem discovery_nochain (U : Id → Option Blk) (hU : UOK U) (s : FState) (b :
     rw [hlib2] at this; exact this
   have herid : er.blk.id = R.id := find_id _ _ er hfer
   right; right
-  refine ⟨er.blk, [], by simp only; rw [hlib2, herid], by simp, trivial, ?_, by rw [herid]; exact hJ2⟩
+  refine ⟨er.blk, [], by simp only; rw [hlib2, herid], by simp, trivial, ?_, by rw [herid]; exact hJ2,
+    by intro l hl; simp only at hl; rw [hP.noLast] at hl; cases hl⟩
   refine ⟨by simp only; rw [hlib2]; exact hRne, hw2, hh2, trivial, by simp, by simp, ?_, ?_, ?_, ?_, Or.inl hP.seenEmpty⟩
   · intro l hl; simp only at hl; rw [hP.noLast] at hl; cases hl
   · intro _; exact ⟨rfl, hns2⟩
@@ -662,7 +672,11 @@ theorem discovery_initial (cfg : Config) (hnew : cfg.matches .new = true) (hirr 
     unfold finish; simp only; rw [hn1.2.2]; simp only [hp.2.2.1, List.nil_append]
   right; left
   rw [hfinst, hfinevs]
-  refine ⟨by simp only [initSt, Bool.false_eq_true, if_false]; rw [hs'db, hlib2], ?_, ?_, ?_⟩
+  refine ⟨by simp only [initSt, Bool.false_eq_true, if_false]; rw [hs'db, hlib2], ?_, ?_, ?_, ?_⟩
+  rotate_right
+  · intro l hl'
+    simp only [initSt, Option.some.injEq] at hl'
+    exact ⟨b, by rw [← hl']; exact hbU, by rw [← hl']⟩
   · rw [List.map_append, irrEvents_sb cfg hirr]
     simp [sbOf]
   · apply inv_seen _ _ _ _ (by simp only [initSt, Bool.false_eq_true, if_false]; rw [hs'db, hlib2])
